@@ -83,6 +83,7 @@ type oKey struct {
 	Key     string `json:"key"`
 	Revoked bool   `json:"revoked"`
 	Auth    bool   `json:"auth"`
+	Pklist  bool   `json:"pklist"`
 }
 
 type oIdState struct {
@@ -412,7 +413,7 @@ func (w *oWorld) observe(pi, si int, res, errs string) (o oObs) {
 			if !ok {
 				name = "?"
 			}
-			s.Keys = append(s.Keys, oKey{Key: name, Revoked: p.revoked, Auth: p.isAuthentication})
+			s.Keys = append(s.Keys, oKey{Key: name, Revoked: p.revoked, Auth: p.isAuthentication, Pklist: p.isPkList})
 		}
 		item, err := utils.GetStorageItem(ns.CacheDB, cp(enc, FIELD_CONTROLLER))
 		vhMust(err)
